@@ -20,7 +20,7 @@ RULE = (
     "all public tables, (ii) frame condition - the diff of a deep snapshot must lie inside the op's declared footprint, (iii) "
     "postconditions of deletions (delete after insert restores the table; delete_* removes exactly the viewed entries and keeps all others with their values). At the "
     "end integrate runs for 4 steps and every recording is compared with the reference simulator R3 built from the displayed "
-    "tables. The thorough tier additionally enumerates ALL sequences of length <= 3 over 14 fixed op templates on a fixed 3-branch "
+    "tables. The thorough tier additionally enumerates ALL sequences of length <= 3 over 14 (cell) / 17 (network) fixed op templates on a fixed 3-branch "
     "cell and a fixed 2-cell network. Non-trivial: a deletion after a matching insertion, or >= 3 different op kinds; "
     "distinct = hash(op log)."
 )
@@ -113,7 +113,7 @@ TEMPLATES_CELL = [
 ]
 TEMPLATES_NET = [t for t in TEMPLATES_CELL if t["op"] != "set_ncomp"] + [
     {"op": "connect", "pre": 0.0, "post": 0.9, "type": "IonotropicSynapse"}, {"op": "connect", "pre": 0.6, "post": 0.1, "type": "TestSynapse"},
-    {"op": "record_edge", "pick": 0.99, "edges": "all"},
+    {"op": "record_edge", "pick": 0.99, "edges": "all"}, {"op": "make_trainable_edge", "pick": 0.0, "edges": "all", "u": 0.999},
 ]
 
 
